@@ -181,7 +181,13 @@ BrokenListCases ==
       [h \in 1..2 |-> [kind |-> "brokenlist", fn |-> ListFnOf(Whichs[w]), which |-> Whichs[w],
                        bytes |-> (IF h = 1 THEN <<>> ELSE EncExt(Vals[5])) \o BrokenTails[q], val |-> h, extra |-> 0]]])])
 
-ASSUME TLCSet(1, SingleCases \o TagCases \o ForeignTagCases \o EmptyOnlyCases \o BeyondCases \o SpecialCases
+(* an extension followed by 2^16 - 1 .. 2^17 - 1 more bytes *)
+LongTailCases ==
+  Concat([t \in 1..Len(LongTails) |->
+    Concat([w \in 1..3 |->
+      [q \in 1..2 |-> [kind |-> "single", fn |-> FnOf(Whichs[w]), which |-> Whichs[w],
+                       bytes |-> EncExt(Vals[<<2, 13>>[q]]) \o [h \in 1..LongTails[t] |-> 171], val |-> <<2, 13>>[q], extra |-> LongTails[t]]]])])
+ASSUME TLCSet(1, LongTailCases \o SingleCases \o TagCases \o ForeignTagCases \o EmptyOnlyCases \o BeyondCases \o SpecialCases
                  \o InnerCases \o TagInnerCases \o LongListCases \o ListCases \o BrokenListCases)
 ASSUME TLCSet(3, Lists)
 Cases == TLCGet(1)
